@@ -138,10 +138,17 @@ def rule_get_addr(ctx, rep, rid='R2'):
     if b is None:
         return
     rep.analysed(b)
+    b = inl(cad, b)         # a private `first_addr(candidates)` helper is part of the resolver
     T = Terms(b)
     nx = [bi for bi, t in b.calls() if callee_is(t, 'Iterator>::next') and not b.blocks[bi]['cleanup']]
-    other = [bi for bi, t in b.calls() if not b.blocks[bi]['cleanup'] and any(k in t.get('callee', '') for k in ('::last', '::nth', '::skip', '::rev', '::collect', '::max', '::min', '::filter'))]
+    other = [bi for bi, t in b.calls() if not b.blocks[bi]['cleanup'] and any(t.get('callee', '').endswith(k) or (k + '<') in t.get('callee', '') for k in ('::last', '::nth', '::skip', '::rev', '::collect', '::max', '::min', '::filter'))]
     ok = len(nx) == 1 and not other and count_events(b, lambda x: x in nx) <= {0, 1}
+    if ok:
+        # what next() is called on is what to_socket_addrs() returned (through `?` and at most an identity into_iter())
+        recv = norm(T.call_term(nx[0]))[2][0]
+        cs = [y[1] for y in walk(recv) if y[0] == 'call' and isinstance(y[1], str)]
+        ok = any(c.endswith('ToSocketAddrs>::to_socket_addrs') or c.endswith('ToSocketAddrs::to_socket_addrs') for c in cs) and \
+            all(c.endswith(('ToSocketAddrs>::to_socket_addrs', 'ToSocketAddrs::to_socket_addrs', 'Try>::branch', 'IntoIterator>::into_iter')) for c in cs)
     rep.ob(rid, 'first-address', ok, b.where(nx[0]) if nx else b.where(), 'takes to_socket_addrs()?.next(): the first address' if ok else 'the destination is not the first resolved address')
     if ok:
         nct = norm(T.call_term(nx[0]))
@@ -335,7 +342,7 @@ def rule_socket_untouched(ctx, rep, rid='R4s'):
                     meth = k[len(st):]
                     if meth not in SOCK_HARMLESS and not b.blocks[bi]['cleanup']:
                         bad.append((b, bi, meth))
-    rep.floor(rid, 'socket method calls in the library', n, 4)
+    rep.floor(rid, 'socket method calls in the library', n, 2)       # at least one UDP and one Unix send site
     rep.sites(n)
     rep.ob(rid, 'socket-only-sent-to', not bad, bad[0][0].where(bad[0][1]) if bad else '',
            'the only thing the library does with the caller\'s socket is send_to' if not bad else
